@@ -918,7 +918,7 @@ func (e *c10env) runCase(idx int, wc *wcase) (Sx, Sx, error) {
 
 var c10Names = []string{"a", "B", "_", "é", "-x", "a b", " lead", "~", "z", "A", "b", "aa", "a.pem", "Z", "0",
 	"authorized_keys", "known_hosts", "x.der", "e", "éé", "a-", "a_", "aB", "-", "--", "-r", "\xff", "x=y",
-	"a\nb", "-rf", "\xc3", "a\tb", c10LongName}
+	"a\nb", "-rf", "\xc3", "a\tb", c10LongName, "a.pub", "c.der", "t.jwt"}
 
 // a name of NAME_MAX bytes
 var c10LongName = strings.Repeat("n", 250) + ".nnnn"
@@ -950,9 +950,16 @@ func c10Contents(r *Rng) [][]byte {
 type c10gen struct {
 	r        *Rng
 	contents [][]byte
+	pool     [][]byte
 }
 
-func (g *c10gen) content() []byte { return g.contents[g.r.Intn(len(g.contents))] }
+func (g *c10gen) content() []byte {
+	// the random trees draw from the basic contents and from the order-sensitive families (c10_order.go)
+	if len(g.pool) > 0 && g.r.Intn(2) == 0 {
+		return g.pool[g.r.Intn(len(g.pool))]
+	}
+	return g.contents[g.r.Intn(len(g.contents))]
+}
 
 func (g *c10gen) names(n int) []string {
 	// n distinct names, in random (creation) order
@@ -1185,6 +1192,7 @@ func genC10(c *Ctx) {
 	}
 	g := &c10gen{r: c.R}
 	g.contents = c10Contents(c.R)
+	g.pool = c10OrderContents(c)
 	uuid := g.contents[2]
 	hello := g.contents[1]
 	der := g.contents[3]
@@ -1452,6 +1460,9 @@ func genC10(c *Ctx) {
 			addStdin("big-execpipe-"+big.tag, big.data, dExecPipe)
 		}
 	}
+
+	// ---- order-sensitive families: what one file leaves behind must not reach the next ----
+	c10OrderCases(c, add)
 
 	// ---- random trees ----
 	nTrees := 260
